@@ -9,6 +9,7 @@ import (
 	"github.com/protolambda/zrnt/eth2/beacon/common"
 	"github.com/protolambda/zrnt/eth2/beacon/phase0"
 	"github.com/protolambda/ztyp/tree"
+	"github.com/protolambda/ztyp/view"
 
 	"verif/sim/refspec"
 	"verif/sim/sszmodel"
@@ -362,6 +363,25 @@ func (s *sim) checkGenesisLogs() {
 		}
 		if mv {
 			s.res.Stat("genesis_logs_valid", 1)
+		}
+		// the validity predicate exactly at, just below and just above its two thresholds
+		active := uint64(len(refspec.ActiveValidatorIndices(spec, m, 0)))
+		for _, dc := range []int64{-1, 0, 1} {
+			for _, dt := range []int64{-1, 0, 1} {
+				sp := *spec
+				if int64(active)+dc < 0 || int64(m.GenesisTime)+dt < 0 {
+					continue
+				}
+				sp.MIN_GENESIS_ACTIVE_VALIDATOR_COUNT = view.Uint64View(int64(active) + dc)
+				sp.MIN_GENESIS_TIME = common.Timestamp(int64(m.GenesisTime) + dt)
+				zv, err := phase0.IsValidGenesisState(&sp, zst)
+				mv := refspec.IsValidGenesisState(&sp, m)
+				s.res.Stat("genesis_validity_threshold_checks", 1)
+				if err != nil || zv != mv {
+					s.viol("C13", "is-valid-genesis-state/at-threshold", fmt.Sprintf("deposit log of %d entries: %d active validators, genesis time %d, MIN_GENESIS_ACTIVE_VALIDATOR_COUNT %d, MIN_GENESIS_TIME %d: zrnt says %v (err %v), spec says %v", n, active, m.GenesisTime, sp.MIN_GENESIS_ACTIVE_VALIDATOR_COUNT, sp.MIN_GENESIS_TIME, zv, err, mv))
+					return
+				}
+			}
 		}
 		// the returned context describes the returned state (C07/C08 monitors at slot 0)
 		box := &stateBox{wrapState(zst), zepc}
